@@ -154,10 +154,17 @@ theorem forces_coef_eq [∀ a b : ℝ, Decidable (a < b)] (col : List ℝ) :
     coefOfColumn col =
       Real.sqrt ((col.map (fun x => (x - col.sum / (col.length : ℝ)) * (x - col.sum / (col.length : ℝ)))).sum
         / (col.length : ℝ)) / ((col.map (fun x => |x|)).sum / (col.length : ℝ)) := by
-  rw [coefOfColumn, std_real, meanAbs_real, mean_real]
+  rw [coefOfColumn_eq_raw, coefOfColumnRaw, std_real, meanAbs_real, mean_real]
+
+/-- **zero_force_coordinate_max_delta**: on a coordinate where every committee member gives exactly zero force the
+    coefficient is 0 — by the branch the code takes, for every carrier (no appeal to `0/0`) -/
+theorem zero_force_coefficient {α : Type} [Num α] [∀ a b : α, Decidable (a < b)] (col : List α)
+    (h : ¬ (Num.zero : α) < meanAbs col) : coefOfColumn col = Num.zero := by
+  unfold coefOfColumn; rw [if_neg h]
 
 /-- a force coordinate's denominator `mean|F|` is zero exactly when every member predicts zero force there, and
-    then the numerator is zero too: Python computes `0.0/0.0 = nan` on that coordinate (never `±inf`) -/
+    then the numerator is zero too: the raw quotient is `0.0/0.0 = nan` in Python (never `±inf`) — the code before the
+    repair; the guarded quotient gives 0 -/
 theorem zero_force_coordinate [∀ a b : ℝ, Decidable (a < b)] (col : List ℝ) (hl : col ≠ []) :
     (meanAbs col = 0 ↔ ∀ x ∈ col, x = 0) ∧ (meanAbs col = 0 → std col = 0) :=
   ⟨meanAbs_eq_zero_iff col hl, std_eq_zero_of_meanAbs_eq_zero col⟩
@@ -237,7 +244,7 @@ example : adapted .exp (0 : ℝ) 1 1 2 = 1 / 4 := by
 /-- a concrete committee: two members predicting 1 and 3 on a coordinate → std 1, mean|F| 2, coefficient ½ -/
 example : coefOfColumn ([1, 3] : List ℝ) = 1 / 2 := by
   have hm : mean ([1, 3] : List ℝ) = 2 := by rw [mean_real]; norm_num
-  rw [coefOfColumn, std_real, meanAbs_real, hm]
+  rw [coefOfColumn_eq_raw, coefOfColumnRaw, std_real, meanAbs_real, hm]
   norm_num
 
 /-- the fallback hypothesis is satisfiable in both ways -/
